@@ -1,11 +1,14 @@
 package rules
 
 import (
+	"go/token"
+	"sort"
 	"strings"
 
 	"golang.org/x/tools/go/ssa"
 
 	"gfs3check/internal/core"
+	"gfs3check/internal/oblig"
 )
 
 // storedBodyFields hold bytes that are handed out to readers without copying.
@@ -115,4 +118,785 @@ func sprintfIdx(v ssa.Value) string {
 		return ""
 	}
 	return sprintf("b%d.%d", in.Block().Index, core.InstrIndex(in))
+}
+
+func init() { Registry["C01"] = C01 }
+
+// C01 — stored objects come back byte-for-byte with matching size, ETag and metadata.
+func C01(r *core.Run) {
+	r.Explanation = "The structure that makes the returned ETag, size and metadata the ones belonging to the stored bytes (not byte equality itself), for every handler path and all four backends: " +
+		"(R01.1) the ETag header of PUT/POST is the Sum of the very hashing reader that was handed to PutObject, which wraps the request body; " +
+		"(R01.2) in every PutObject the stored hash and the stored body come from one single consumption of the input: ReadAll(input,size)→md5.Sum(same bytes) (memory, bolt) or one io.Copy(input) into a MultiWriter over exactly {the truncating-created object file, the hasher} whose Sum is stored (fs); " +
+		"(R01.3) Content-Length/Object.Size derive from the stored bytes' length; (R01.4) header-name constants are canonical and the persisted header set covers Content-Type/-Encoding/-Disposition and x-amz-meta-*; " +
+		"(R01.5) GET and HEAD replay every stored metadata header and the ETag through one shared function, before length and body; (R01.6) stored bodies are never mutated; (R01.7) no storage error is dropped."
+	r.NotDecided = "byte equality, empty-body behaviour, URL-escaping of keys, that ReadAll reads exactly size bytes, bolt/BSON and JSON round trips of values"
+	rule011(r)
+	rule012(r)
+	rule013(r)
+	rule014(r)
+	rule015(r)
+	rule016(r, "C01")
+	rule017(r)
+}
+
+func rule011(r *core.Run) {
+	r.Rule("R01.1", "in createObject and createObjectBrowserUpload the ETag response header derives from (*hashingReader).Sum on the same reader value that is passed as input to storage.PutObject; that reader wraps r.Body (or the chunk decoder over it) / the uploaded form file; the header is set only after a checked PutObject")
+	sumFn := mustFunc(r, "gofakes3.(*hashingReader).Sum")
+	newFn := mustFunc(r, "gofakes3.newHashingReader")
+	if sumFn == nil || newFn == nil {
+		return
+	}
+	for _, hn := range []string{"gofakes3.(*GoFakeS3).createObject", "gofakes3.(*GoFakeS3).createObjectBrowserUpload"} {
+		fn := mustFunc(r, hn)
+		if fn == nil {
+			continue
+		}
+		var put *ssa.Call
+		var etagSet *ssa.Call
+		core.Instrs(fn, func(in ssa.Instruction) {
+			c, ok := in.(*ssa.Call)
+			if !ok {
+				return
+			}
+			switch r.P.CalleeName(c) {
+			case "invoke:gofakes3.Backend.PutObject":
+				put = c
+			case "(net/http.Header).Set":
+				if n, ok := core.ConstString(c.Call.Args[1]); ok && n == "ETag" {
+					etagSet = c
+				}
+			}
+		})
+		if put == nil || etagSet == nil {
+			r.Violated("R01.1", key(hn, "anchors"), r.P.Pos(fn.Pos()), "handler no longer calls storage.PutObject and sets the ETag header")
+			continue
+		}
+		// the reader given to PutObject
+		in3 := put.Call.Args[3]
+		if mi, ok := in3.(*ssa.MakeInterface); ok {
+			in3 = mi.X
+		}
+		s := r.P.SliceOf(etagSet.Call.Args[2], core.SliceOpts{Depth: -1})
+		sameReader := false
+		for c := range s.Calls {
+			if core.StaticCallee(c) == sumFn && c.Common().Args[0] == in3 {
+				sameReader = true
+			}
+		}
+		r.Check(sameReader && s.Has("call:encoding/hex.EncodeToString"), "R01.1", key(hn, "ETag = hex(Sum of the reader given to PutObject)"), pos(r, etagSet),
+			"ETag header is the digest of exactly the stream that was stored", "the ETag header is not the Sum() of the hashing reader that was passed to storage.PutObject (a different reader, or no hash at all)")
+		r.Check(core.CheckedBefore(put, etagSet), "R01.1", key(hn, "ETag only after successful PutObject"), pos(r, etagSet), "set after checked PutObject", "the ETag header is written although PutObject may have failed / before it ran")
+		// the reader wraps the body
+		src := r.P.SliceOf(in3, core.SliceOpts{Depth: -1})
+		var wraps bool
+		for c := range src.Calls {
+			if core.StaticCallee(c) == newFn {
+				inner := r.P.SliceOf(c.Common().Args[0], core.SliceOpts{Depth: -1})
+				if inner.Has("field:net/http.Request.Body") || inner.Has("call:(*mime/multipart.FileHeader).Open") {
+					wraps = true
+				}
+			}
+		}
+		r.Check(wraps, "R01.1", key(hn, "reader wraps the request body"), pos(r, put), "newHashingReader over r.Body / the form file", "the reader passed to PutObject is not a hashing reader over the request body")
+		// bucket/key args are the handler's
+		bp := paramNamed(fn, "bucket")
+		r.Check(bp != nil && put.Call.Args[0] == ssa.Value(bp), "R01.1", key(hn, "PutObject(bucket)"), pos(r, put), "stored in the addressed bucket", "PutObject does not receive the handler's bucket")
+		if op := paramNamed(fn, "object"); op != nil {
+			r.Check(put.Call.Args[1] == ssa.Value(op), "R01.1", key(hn, "PutObject(object)"), pos(r, put), "stored under the addressed key", "PutObject does not receive the handler's object key unchanged")
+		}
+		// meta argument is the result of metadataHeaders
+		ms := r.P.SliceOf(put.Call.Args[2], core.SliceOpts{Depth: -1})
+		r.Check(ms.Has("call:gofakes3.metadataHeaders"), "R01.1", key(hn, "PutObject(meta)"), pos(r, put), "metadata from metadataHeaders", "PutObject's metadata is not the result of metadataHeaders(request headers)")
+	}
+}
+
+func rule012(r *core.Run) {
+	r.Rule("R01.2", "each PutObject consumes input exactly once and stores hash and body of that same consumption: memory/bolt — x := ReadAll(input,size); body←x; hash←md5.Sum(x); fs — one io.Copy(dst,input), dst = MultiWriter over exactly {object file opened truncating at the object path, hasher}, Metadata.Hash←hasher.Sum, Size/ModTime←Stat of the same path")
+	readAll := mustFunc(r, "gofakes3.ReadAll")
+	// memory + bolt
+	type kv struct{ impl, bodyField, hashField string }
+	for _, b := range []kv{{"s3mem.(*Backend)", "s3mem.bucketData.body", "s3mem.bucketData.hash"}, {"s3bolt.(*Backend)", "s3bolt.boltObject.Contents", "s3bolt.boltObject.Hash"}} {
+		fn := implMethod(r, b.impl, "PutObject")
+		if fn == nil {
+			continue
+		}
+		name := fname(r, fn)
+		var ra *ssa.Call
+		core.Instrs(fn, func(in ssa.Instruction) {
+			if c, ok := in.(*ssa.Call); ok && core.StaticCallee(c) == readAll {
+				ra = c
+			}
+		})
+		inp, szp := paramNamed(fn, "input"), paramNamed(fn, "size")
+		if ra == nil {
+			r.Violated("R01.2", key(name, "ReadAll"), r.P.Pos(fn.Pos()), "PutObject no longer reads the body with gofakes3.ReadAll(input, size)")
+			continue
+		}
+		r.Check(ra.Call.Args[0] == ssa.Value(inp) && ra.Call.Args[1] == ssa.Value(szp), "R01.2", key(name, "ReadAll(input,size)"), pos(r, ra), "reads the input with the declared size", "ReadAll is not called with exactly (input, size)")
+		var x ssa.Value
+		for _, ref := range *ra.Referrers() {
+			if e, ok := ref.(*ssa.Extract); ok && e.Index == 0 {
+				x = e
+			}
+		}
+		// body store
+		var bodyStores, hashStores []*ssa.Store
+		for _, f := range core.Closures(fn) {
+			for _, st := range r.P.FieldStores(b.bodyField) {
+				if st.Parent() == f {
+					bodyStores = append(bodyStores, st)
+				}
+			}
+			for _, st := range r.P.FieldStores(b.hashField) {
+				if st.Parent() == f {
+					hashStores = append(hashStores, st)
+				}
+			}
+		}
+		if len(bodyStores) != 1 || len(hashStores) != 1 {
+			r.Violated("R01.2", key(name, "literal"), r.P.Pos(fn.Pos()), sprintf("expected exactly one store of %s and of %s in PutObject, found %d and %d", b.bodyField, b.hashField, len(bodyStores), len(hashStores)))
+			continue
+		}
+		isX := func(v ssa.Value) bool {
+			// x itself, or a load of the captured variable holding x
+			if v == x {
+				return true
+			}
+			s := r.P.SliceOf(v, core.SliceOpts{Depth: -1})
+			for l := range s.Leaves {
+				if strings.HasPrefix(l, "op:") || strings.HasPrefix(l, "slice-expr") || strings.HasPrefix(l, "call:builtin:append") || strings.HasPrefix(l, "make:") {
+					return false
+				}
+			}
+			return s.HasValue(x) && len(s.CallsTo("gofakes3.ReadAll")) == 1 && !s.HasPrefix("call:bytes.") 
+		}
+		r.Check(isX(bodyStores[0].Val), "R01.2", key(name, "body = ReadAll result"), pos(r, bodyStores[0]), "stored body is exactly the bytes read", "the stored body is not exactly the ReadAll result (sliced, appended or from another source)")
+		hs := r.P.SliceOf(hashStores[0].Val, core.SliceOpts{Depth: -1})
+		okHash := false
+		for c := range hs.Calls {
+			if r.P.CalleeName(c) == "crypto/md5.Sum" && isX(c.Common().Args[0]) {
+				okHash = true
+			}
+		}
+		r.Check(okHash, "R01.2", key(name, "hash = md5.Sum(same bytes)"), pos(r, hashStores[0]), "stored hash is md5.Sum of the stored body value", "the stored hash is not md5.Sum over exactly the value stored as the body")
+		// hash slice must be the full array: hash[:] only
+		fullSlice := true
+		for v := range hs.Values {
+			if sl, ok := v.(*ssa.Slice); ok && (sl.Low != nil || sl.High != nil) {
+				fullSlice = false
+			}
+		}
+		r.Check(fullSlice, "R01.2", key(name, "hash not truncated"), pos(r, hashStores[0]), "whole digest stored", "only part of the MD5 digest is stored")
+	}
+	// fs backends
+	for _, impl := range []string{"s3afero.(*MultiBucketBackend)", "s3afero.(*SingleBucketBackend)"} {
+		fn := implMethod(r, impl, "PutObject")
+		if fn == nil {
+			continue
+		}
+		name := fname(r, fn)
+		inp := paramNamed(fn, "input")
+		var copies []*ssa.Call
+		core.Instrs(fn, func(in ssa.Instruction) {
+			if c, ok := in.(*ssa.Call); ok && (r.P.CalleeName(c) == "io.Copy" || r.P.CalleeName(c) == "io.CopyN" || r.P.CalleeName(c) == "io.CopyBuffer") {
+				copies = append(copies, c)
+			}
+		})
+		if len(copies) != 1 {
+			r.Violated("R01.2", key(name, "single io.Copy"), r.P.Pos(fn.Pos()), sprintf("expected exactly one io.Copy consuming the input, found %d", len(copies)))
+			continue
+		}
+		cp := copies[0]
+		r.Check(cp.Call.Args[1] == ssa.Value(inp), "R01.2", key(name, "io.Copy(_, input)"), pos(r, cp), "copies from the input parameter", "io.Copy's source is not the input parameter itself")
+		// dst = MultiWriter(f, hasher)
+		var mw *ssa.Call
+		if c, ok := cp.Call.Args[0].(*ssa.Call); ok && r.P.CalleeName(c) == "io.MultiWriter" {
+			mw = c
+		}
+		if mw == nil {
+			r.Violated("R01.2", key(name, "dst = io.MultiWriter(file, hasher)"), pos(r, cp), "the copy destination is not io.MultiWriter(file, hasher): bytes and digest are no longer produced by one pass")
+			continue
+		}
+		var file, hasher *ssa.Call
+		nW := 0
+		if sl, ok := mw.Call.Args[0].(*ssa.Slice); ok {
+			if arr, ok := sl.X.(*ssa.Alloc); ok {
+				for _, ref := range *arr.Referrers() {
+					ia, ok := ref.(*ssa.IndexAddr)
+					if !ok {
+						continue
+					}
+					for _, u := range *ia.Referrers() {
+						st, ok := u.(*ssa.Store)
+						if !ok {
+							continue
+						}
+						nW++
+						v := st.Val
+						for {
+							if mi, ok := v.(*ssa.MakeInterface); ok {
+								v = mi.X
+							} else if ci, ok := v.(*ssa.ChangeInterface); ok {
+								v = ci.X
+							} else if rl := oblig.ResolveLocal(v); rl != v {
+								v = rl
+							} else {
+								break
+							}
+						}
+						if ex, ok := v.(*ssa.Extract); ok {
+							v = ex.Tuple
+						}
+						if c, ok := v.(*ssa.Call); ok {
+							switch n := r.P.CalleeName(c); {
+							case n == "crypto/md5.New":
+								hasher = c
+							case strings.HasPrefix(n, "invoke:github.com/spf13/afero.Fs."):
+								file = c
+							}
+						}
+					}
+				}
+			}
+		}
+		r.Check(nW == 2 && file != nil && hasher != nil, "R01.2", key(name, "MultiWriter over exactly {file, md5}"), pos(r, mw), "two writers: the object file and the MD5 hasher", "io.MultiWriter does not combine exactly the created object file and one md5 hasher")
+		if file == nil || hasher == nil {
+			continue
+		}
+		// truncating open at the object path
+		m := file.Common().Method.Name()
+		trunc := m == "Create"
+		if m == "OpenFile" {
+			if fl, ok := core.ConstInt(file.Common().Args[1]); ok {
+				const oTRUNC, oCREATE, oAPPEND, oWR = 0x200, 0x40, 0x400, 0x3
+				trunc = fl&oTRUNC != 0 && fl&oCREATE != 0 && fl&oAPPEND == 0 && fl&oWR != 0
+			}
+		}
+		r.Check(trunc, "R01.2", key(name, "object file opened truncating"), pos(r, file), "Create / OpenFile with O_TRUNC|O_CREATE", "the object file is opened without truncation (or appending): overwriting with a shorter body leaves the old tail")
+		objPath := file.Common().Args[0]
+		ps := r.P.SliceOf(objPath, core.SliceOpts{Depth: -1})
+		op := paramNamed(fn, "objectName")
+		r.Check(op != nil && ps.HasValue(op), "R01.2", key(name, "file path from objectName"), pos(r, file), "path derives from the key", "the created file's path does not derive from the object key")
+		// Metadata literal
+		for _, f := range []string{"Hash", "Size", "ModTime", "Meta"} {
+			var st *ssa.Store
+			for _, s2 := range r.P.FieldStores("s3afero.Metadata." + f) {
+				if s2.Parent() == fn {
+					st = s2
+				}
+			}
+			if st == nil {
+				r.Violated("R01.2", key(name, "Metadata."+f), r.P.Pos(fn.Pos()), "PutObject no longer sets Metadata."+f)
+				continue
+			}
+			vs := r.P.SliceOf(st.Val, core.SliceOpts{Depth: -1})
+			switch f {
+			case "Hash":
+				okH := false
+				for c := range vs.Calls {
+					if r.P.CalleeName(c) == "invoke:hash.Hash.Sum" {
+						rv := oblig.ResolveLocal(c.Common().Value)
+						if rv == ssa.Value(hasher) {
+							okH = true
+						}
+					}
+				}
+				r.Check(okH, "R01.2", key(name, "Metadata.Hash = hasher.Sum"), pos(r, st), "digest of the copied stream", "Metadata.Hash is not the Sum of the hasher fed by the copy")
+			case "Size", "ModTime":
+				okS := false
+				for c := range vs.Calls {
+					if strings.HasSuffix(r.P.CalleeName(c), ".Stat") && strings.HasPrefix(r.P.CalleeName(c), "invoke:github.com/spf13/afero.Fs") && c.Common().Args[0] == objPath {
+						okS = true
+					}
+				}
+				r.Check(okS && !vs.HasPrefix("op:"), "R01.2", key(name, "Metadata."+f+" from Stat(object path)"), pos(r, st), "from Stat of the written file", "Metadata."+f+" does not come from Stat of the file just written")
+			case "Meta":
+				mp := paramNamed(fn, "meta")
+				r.Check(st.Val == ssa.Value(mp), "R01.2", key(name, "Metadata.Meta = meta"), pos(r, st), "the request metadata", "Metadata.Meta is not the meta parameter")
+			}
+		}
+		// saveMeta(metaPath(bucketName, objectName), storedMeta) checked
+		saved := false
+		core.Instrs(fn, func(in ssa.Instruction) {
+			if c, ok := in.(*ssa.Call); ok && r.P.CalleeName(c) == "s3afero.(*metaStore).saveMeta" {
+				ms := r.P.SliceOf(c.Call.Args[1], core.SliceOpts{Depth: -1})
+				bp := paramNamed(fn, "bucketName")
+				if ms.Has("call:s3afero.(*metaStore).metaPath") && ms.HasValue(op) && ms.HasValue(bp) {
+					for ret, ev := range returnedErrors(fn) {
+						if definitelyNil(r, ev) && !core.CheckedBefore(c, ret) {
+							return
+						}
+					}
+					saved = true
+				}
+			}
+		})
+		r.Check(saved, "R01.2", key(name, "metadata saved under (bucket,key)"), r.P.Pos(fn.Pos()), "saveMeta(metaPath(bucketName, objectName)) checked before success", "metadata is not saved under metaPath(bucketName, objectName) with its error checked before success is returned")
+	}
+	r.Floor("R01.2", 24, "PutObject provenance obligations")
+	// ReadAll itself: result buffer is filled from r only
+	if readAll != nil {
+		s := errorSliceOf(r, readAll, 1)
+		r.Check(has(errCodes(s), "IncompleteBody"), "R01.2", key(fname(r, readAll), "IncompleteBody"), r.P.Pos(readAll.Pos()), "short/long bodies are refused", "ReadAll no longer returns ErrIncompleteBody")
+	}
+}
+
+func rule013(r *core.Run) {
+	r.Rule("R01.3", "HEAD's Content-Length is obj.Size; every backend's Object.Size is the length of the stored bytes (len(body) / stored Size / Stat().Size of the opened object) and Object.Hash/Metadata come from the same stored record")
+	if fn := mustFunc(r, "gofakes3.(*GoFakeS3).headObject"); fn != nil {
+		ok := false
+		var at ssa.Instruction
+		core.Instrs(fn, func(in ssa.Instruction) {
+			if c, okc := in.(*ssa.Call); okc && r.P.CalleeName(c) == "(net/http.Header).Set" {
+				if n, _ := core.ConstString(c.Call.Args[1]); n == "Content-Length" {
+					at = c
+					s := r.P.SliceOf(c.Call.Args[2], core.SliceOpts{Depth: -1})
+					ok = s.Has("field:gofakes3.Object.Size") && !s.HasPrefix("op:")
+				}
+			}
+		})
+		p0 := r.P.Pos(fn.Pos())
+		if at != nil {
+			p0 = pos(r, at)
+		}
+		r.Check(ok, "R01.3", key(fname(r, fn), "Content-Length = obj.Size"), p0, "HEAD reports obj.Size", "HEAD's Content-Length is not obj.Size")
+	}
+	type src struct{ fn, size, hash, meta string }
+	for _, b := range []src{
+		{"s3mem.(*bucketData).toObject", "call:builtin:len+field:s3mem.bucketData.body", "field:s3mem.bucketData.hash", "field:s3mem.bucketData.metadata"},
+		{"s3bolt.(*boltObject).Object", "field:s3bolt.boltObject.Size", "field:s3bolt.boltObject.Hash", "field:s3bolt.boltObject.Metadata"},
+		{"s3afero.(*MultiBucketBackend).GetObject", "STATSIZE", "field:s3afero.Metadata.Hash", "field:s3afero.Metadata.Meta"},
+		{"s3afero.(*MultiBucketBackend).HeadObject", "STATSIZE", "field:s3afero.Metadata.Hash", "field:s3afero.Metadata.Meta"},
+		{"s3afero.(*SingleBucketBackend).GetObject", "STATSIZE", "field:s3afero.Metadata.Hash", "field:s3afero.Metadata.Meta"},
+		{"s3afero.(*SingleBucketBackend).HeadObject", "STATSIZE", "field:s3afero.Metadata.Hash", "field:s3afero.Metadata.Meta"},
+	} {
+		fn := mustFunc(r, b.fn)
+		if fn == nil {
+			continue
+		}
+		get := func(field string) ssa.Value {
+			for _, st := range r.P.FieldStores("gofakes3.Object." + field) {
+				if st.Parent() == fn {
+					return st.Val
+				}
+			}
+			return nil
+		}
+		chk := func(field, want string) {
+			v := get(field)
+			if v == nil {
+				r.Violated("R01.3", key(b.fn, "Object."+field), r.P.Pos(fn.Pos()), "Object."+field+" is not set")
+				return
+			}
+			s := r.P.SliceOf(v, core.SliceOpts{Depth: -1})
+			ok := true
+			for _, w := range strings.Split(want, "+") {
+				if w == "STATSIZE" {
+					if !s.Has("call:invoke:io/fs.FileInfo.Size") && !s.Has("call:invoke:os.FileInfo.Size") {
+						ok = false
+					}
+					continue
+				}
+				if !s.Has(w) {
+					ok = false
+				}
+			}
+			if field == "Size" && s.HasPrefix("op:") {
+				ok = false
+			}
+			r.Check(ok, "R01.3", key(b.fn, "Object."+field), vpos(r, v), "from "+want, "Object."+field+" does not derive from "+want)
+		}
+		chk("Size", b.size)
+		chk("Hash", b.hash)
+		chk("Metadata", b.meta)
+		// Name is the requested key
+		if v := get("Name"); v != nil {
+			s := r.P.SliceOf(v, core.SliceOpts{Depth: -1})
+			r.Check(s.HasPrefix("param:") || s.Has("field:s3mem.bucketData.name"), "R01.3", key(b.fn, "Object.Name"), vpos(r, v), "the requested key", "Object.Name is not the requested key")
+		}
+	}
+	// fs: the meta record is loaded for the same (bucket,key,size,mtime) as the opened file
+	for _, n := range []string{"s3afero.(*MultiBucketBackend).GetObject", "s3afero.(*MultiBucketBackend).HeadObject", "s3afero.(*SingleBucketBackend).GetObject", "s3afero.(*SingleBucketBackend).HeadObject"} {
+		fn := mustFunc(r, n)
+		if fn == nil {
+			continue
+		}
+		ok := false
+		core.Instrs(fn, func(in ssa.Instruction) {
+			c, okc := in.(*ssa.Call)
+			if !okc {
+				return
+			}
+			cn := r.P.CalleeName(c)
+			if cn != "s3afero.(*metaStore).loadMeta" && cn != "s3afero.(*SingleBucketBackend).ensureMeta" {
+				return
+			}
+			a := c.Call.Args
+			bp, op := paramNamed(fn, "bucketName"), paramNamed(fn, "objectName")
+			ss := r.P.SliceOf(a[3], core.SliceOpts{Depth: -1})
+			if a[1] == ssa.Value(bp) && a[2] == ssa.Value(op) && (ss.Has("call:invoke:io/fs.FileInfo.Size") || ss.Has("call:invoke:os.FileInfo.Size")) {
+				ok = true
+			}
+		})
+		r.Check(ok, "R01.3", key(n, "metadata record of the same key"), r.P.Pos(fn.Pos()), "loadMeta(bucketName, objectName, stat size, mtime)", "the metadata record is not loaded for the requested (bucket, key) with the opened file's size")
+	}
+	r.Floor("R01.3", 20, "size/hash/metadata wiring")
+}
+
+func canonicalHeader(s string) string {
+	// net/textproto.CanonicalMIMEHeaderKey evaluated on a constant
+	b := []byte(s)
+	upper := true
+	for i, c := range b {
+		if upper && 'a' <= c && c <= 'z' {
+			c -= 'a' - 'A'
+		} else if !upper && 'A' <= c && c <= 'Z' {
+			c += 'a' - 'A'
+		}
+		b[i] = c
+		upper = c == '-'
+	}
+	return string(b)
+}
+
+func rule014(r *core.Run) {
+	r.Rule("R01.4", "every string constant compared with / used as prefix test against / used to index a header-style map is in canonical MIME form; metadataHeaders persists Content-Type, Content-Encoding, Content-Disposition and a prefix covering X-Amz-Meta-")
+	fn := mustFunc(r, "gofakes3.metadataHeaders")
+	if fn == nil {
+		return
+	}
+	// constants tested against the range key of the headers parameter
+	var eq, pre []string
+	core.Instrs(fn, func(in ssa.Instruction) {
+		switch x := in.(type) {
+		case *ssa.BinOp:
+			if x.Op == token.EQL {
+				for _, o := range []ssa.Value{x.X, x.Y} {
+					if c, ok := core.ConstString(o); ok && c != "" {
+						eq = append(eq, c)
+					}
+				}
+			}
+		case *ssa.Call:
+			if r.P.CalleeName(x) == "strings.HasPrefix" {
+				if c, ok := core.ConstString(x.Call.Args[1]); ok {
+					pre = append(pre, c)
+				}
+			}
+		}
+	})
+	for _, want := range []string{"Content-Type", "Content-Encoding", "Content-Disposition"} {
+		r.Check(has(eq, want), "R01.4", key(fname(r, fn), "persists "+want), r.P.Pos(fn.Pos()), want+" kept", "metadataHeaders does not keep the "+want+" header: it will not come back on GET/HEAD")
+	}
+	covers := false
+	for _, p := range pre {
+		if strings.HasPrefix("X-Amz-Meta-", p) && p != "" {
+			covers = true
+		}
+	}
+	r.Check(covers, "R01.4", key(fname(r, fn), "persists X-Amz-Meta-*"), r.P.Pos(fn.Pos()), "prefix test covers X-Amz-Meta-", "no prefix test in metadataHeaders covers X-Amz-Meta-*: user metadata is dropped")
+	for _, c := range append(append([]string{}, eq...), pre...) {
+		r.Check(canonicalHeader(c) == c, "R01.4", key(fname(r, fn), "canonical", c), r.P.Pos(fn.Pos()), "canonical form", "header constant "+c+" is not in canonical MIME form ("+canonicalHeader(c)+"): net/http delivers canonical keys, the comparison never matches")
+	}
+	// the value kept is the header's first value and the key is the range key
+	okKV := false
+	core.Instrs(fn, func(in ssa.Instruction) {
+		if mu, ok := in.(*ssa.MapUpdate); ok {
+			if _, isConst := mu.Key.(*ssa.Const); isConst {
+				return
+			}
+			ks := r.P.SliceOf(mu.Key, core.SliceOpts{Depth: -1})
+			vs := r.P.SliceOf(mu.Value, core.SliceOpts{Depth: -1})
+			if ks.HasValue(fn.Params[0]) && vs.HasValue(fn.Params[0]) && !ks.HasPrefix("call:strings.") {
+				okKV = true
+			}
+		}
+	})
+	r.Check(okKV, "R01.4", key(fname(r, fn), "meta[hk] = hv[0]"), r.P.Pos(fn.Pos()), "key unchanged, first value kept", "metadataHeaders does not store the header under its own (unmodified) name with its first value")
+	// constant keys used to index header-like maps anywhere in the root package and backends
+	n := 0
+	for _, f := range r.P.RepoFuncs() {
+		g := f
+		core.Instrs(f, func(in ssa.Instruction) {
+			var m, k ssa.Value
+			switch x := in.(type) {
+			case *ssa.Lookup:
+				m, k = x.X, x.Index
+			case *ssa.MapUpdate:
+				m, k = x.Map, x.Key
+			default:
+				return
+			}
+			c, ok := core.ConstString(k)
+			if !ok {
+				return
+			}
+			ts := r.P.TypeShort(m.Type())
+			if ts != "map[string]string" && ts != "map[string][]string" && ts != "net/http.Header" {
+				return
+			}
+			// only maps that carry headers: provenance mentions headers/metadata
+			s := r.P.SliceOf(m, core.SliceOpts{Depth: 1})
+			if !(s.Has("call:gofakes3.metadataHeaders") || s.Has("via:gofakes3.metadataHeaders") || s.Has("field:gofakes3.Object.Metadata") || s.Has("field:net/http.Request.Header") || s.HasPrefix("param:gofakes3.metadataHeaders") || s.Has("param:gofakes3.(*GoFakeS3).copyObject.meta")) {
+				return
+			}
+			n++
+			r.Check(canonicalHeader(c) == c, "R01.4", key(fname(r, g), "header key", c), pos(r, in), "canonical", "header-map key "+c+" is not canonical ("+canonicalHeader(c)+"): the entry stored under the canonical name is never found")
+		})
+	}
+	if n < 6 {
+		r.Unresolved("R01.4: only %d constant header-map keys found (expected >= 6)", n)
+	}
+}
+
+func rule015(r *core.Run) {
+	r.Rule("R01.5", "writeGetOrHeadObjectResponse sets every (key,value) of obj.Metadata as a response header and ETag = quoted hex(obj.Hash) on every non-delete-marker path; getObject and headObject both call it (checked) before writing length/body")
+	fn := mustFunc(r, "gofakes3.(*GoFakeS3).writeGetOrHeadObjectResponse")
+	if fn == nil {
+		return
+	}
+	name := fname(r, fn)
+	var metaSet, etagSet *ssa.Call
+	core.Instrs(fn, func(in ssa.Instruction) {
+		c, ok := in.(*ssa.Call)
+		if !ok || r.P.CalleeName(c) != "(net/http.Header).Set" {
+			return
+		}
+		if n, ok := core.ConstString(c.Call.Args[1]); ok {
+			if n == "ETag" {
+				etagSet = c
+			}
+			return
+		}
+		ks := r.P.SliceOf(c.Call.Args[1], core.SliceOpts{Depth: -1})
+		vs := r.P.SliceOf(c.Call.Args[2], core.SliceOpts{Depth: -1})
+		if ks.Has("field:gofakes3.Object.Metadata") && vs.Has("field:gofakes3.Object.Metadata") {
+			// key and value are the range key/value themselves
+			_, k1 := c.Call.Args[1].(*ssa.Extract)
+			_, v1 := c.Call.Args[2].(*ssa.Extract)
+			if k1 && v1 {
+				metaSet = c
+			}
+		}
+	})
+	if metaSet == nil {
+		r.Violated("R01.5", key(name, "replays metadata"), r.P.Pos(fn.Pos()), "the response no longer sets Header(k, v) for every (k, v) of obj.Metadata")
+	} else {
+		// every iteration reaches the Set: from the loop body entry no path
+		// returns to the loop head (or leaves the function) without passing it
+		skip := ""
+		for _, g := range core.GuardsOf(metaSet) {
+			if _, isNext := findNext(g.If.Cond); !isNext || !g.Branch {
+				continue
+			}
+			body := g.If.Block().Succs[0]
+			if len(body.Instrs) == 0 {
+				continue
+			}
+			head := g.If.Block()
+			first := body.Instrs[0]
+			if first == ssa.Instruction(metaSet) {
+				continue
+			}
+			if core.ReachesAvoiding(first, head.Instrs[len(head.Instrs)-1], func(in ssa.Instruction) bool { return in == ssa.Instruction(metaSet) }) {
+				skip = "an iteration can return to the loop head without setting the header"
+			}
+			for _, ret := range core.Returns(fn) {
+				if core.ReachesAvoiding(first, ret, func(in ssa.Instruction) bool { return in == ssa.Instruction(metaSet) || in == head.Instrs[len(head.Instrs)-1] }) {
+					skip = "the loop can be left from inside its body before the header is set"
+				}
+			}
+		}
+		extra := ""
+		for _, g := range core.GuardsOf(metaSet) {
+			s := r.P.SliceOf(g.If.Cond, core.SliceOpts{Depth: -1})
+			if s.Has("field:gofakes3.Object.IsDeleteMarker") {
+				continue
+			}
+			if _, isNext := findNext(g.If.Cond); isNext {
+				continue
+			}
+			extra = "an extra test at " + pos(r, g.If)
+		}
+		if extra == "" {
+			extra = skip
+		}
+		r.Check(extra == "", "R01.5", key(name, "replays metadata"), pos(r, metaSet), "every stored header replayed", "replaying a stored metadata header is conditional ("+extra+"): some headers do not come back")
+	}
+	if etagSet == nil {
+		r.Violated("R01.5", key(name, "ETag"), r.P.Pos(fn.Pos()), "the response no longer sets the ETag header")
+	} else {
+		s := r.P.SliceOf(etagSet.Call.Args[2], core.SliceOpts{Depth: -1})
+		r.Check(s.Has("field:gofakes3.Object.Hash") && s.Has("call:encoding/hex.EncodeToString") && s.Has(`const:"`), "R01.5", key(name, "ETag = quoted hex(obj.Hash)"), pos(r, etagSet),
+			"quoted hex of obj.Hash", "the ETag header is not the quoted hex of obj.Hash")
+		okg := true
+		for _, g := range core.GuardsOf(etagSet) {
+			s := r.P.SliceOf(g.If.Cond, core.SliceOpts{Depth: -1})
+			if _, isNext := findNext(g.If.Cond); isNext {
+				continue
+			}
+			if !s.Has("field:gofakes3.Object.IsDeleteMarker") {
+				okg = false
+			}
+		}
+		r.Check(okg, "R01.5", key(name, "ETag unconditional"), pos(r, etagSet), "set on every non-delete-marker path", "the ETag header is set only conditionally")
+	}
+	for _, hn := range []string{"gofakes3.(*GoFakeS3).getObject", "gofakes3.(*GoFakeS3).headObject"} {
+		h := mustFunc(r, hn)
+		if h == nil {
+			continue
+		}
+		var call *ssa.Call
+		var after []ssa.Instruction
+		core.Instrs(h, func(in ssa.Instruction) {
+			c, ok := in.(*ssa.Call)
+			if !ok {
+				return
+			}
+			switch n := r.P.CalleeName(c); {
+			case core.StaticCallee(c) == fn:
+				call = c
+			case n == "io.Copy" || n == "gofakes3.(*ObjectRange).writeHeader":
+				after = append(after, c)
+			case n == "(net/http.Header).Set":
+				if k, _ := core.ConstString(c.Call.Args[1]); k == "Content-Length" {
+					after = append(after, c)
+				}
+			}
+		})
+		if call == nil {
+			r.Violated("R01.5", key(hn, "shared response path"), r.P.Pos(h.Pos()), "handler no longer builds its entity headers through writeGetOrHeadObjectResponse")
+			continue
+		}
+		ok := len(after) > 0
+		for _, a := range after {
+			if !core.CheckedBefore(call, a) {
+				ok = false
+			}
+		}
+		// the obj passed is the backend's result
+		s := r.P.SliceOf(call.Call.Args[1], core.SliceOpts{Depth: -1})
+		fromBackend := s.HasPrefix("call:invoke:gofakes3.Backend.") || s.HasPrefix("call:invoke:gofakes3.VersionedBackend.")
+		r.Check(ok && fromBackend, "R01.5", key(hn, "shared response path"), pos(r, call), "entity headers from the backend's object, before length/body", "length/body are written without the (checked) shared entity-header function on the backend's object")
+	}
+}
+
+func findNext(v ssa.Value) (*ssa.Next, bool) {
+	if e, ok := v.(*ssa.Extract); ok {
+		if n, ok := e.Tuple.(*ssa.Next); ok {
+			return n, true
+		}
+	}
+	return nil, false
+}
+
+// ---------------------------------------------------------------- R01.7
+
+// storageErrPrefixes: callees whose error result must not be dropped in code reachable from Backend methods.
+func isStorageCall(name string) bool {
+	for _, p := range []string{"io.", "io/ioutil.", "github.com/spf13/afero.", "invoke:github.com/spf13/afero.", "(*go.etcd.io/bbolt.", "gopkg.in/mgo.v2/bson.", "encoding/json.", "os.", "invoke:io.", "(*os.File)"} {
+		if strings.HasPrefix(name, p) {
+			return true
+		}
+	}
+	return false
+}
+
+func rule017(r *core.Run) {
+	r.Rule("R01.7", "in code reachable from Backend methods no error result of io.*, afero.*, afero.Fs/File methods, bolt.*, bson/json (Un)Marshal is discarded; accepted idioms: Close of a read-only handle or inside a deferred cleanup, hash.Hash.Write, the deferred Remove of the mod-time probe file, Close after the error path already returns an error")
+	var roots []*ssa.Function
+	for _, impl := range backendImpls {
+		for _, fn := range r.P.RepoFuncs() {
+			if strings.HasPrefix(fname(r, fn), impl+".") && fn.Parent() == nil {
+				roots = append(roots, fn)
+			}
+		}
+	}
+	for _, n := range []string{"gofakes3.CopyObject", "gofakes3.MergeMetadata", "gofakes3.ReadAll"} {
+		if f := optFunc(r, n); f != nil {
+			roots = append(roots, f)
+		}
+	}
+	reach := reachableFrom(r, roots)
+	n := 0
+	var fns []*ssa.Function
+	for f := range reach {
+		fns = append(fns, f)
+	}
+	sortFuncs(r, fns)
+	for _, f := range fns {
+		g := f
+		core.Instrs(f, func(in ssa.Instruction) {
+			c, ok := in.(ssa.CallInstruction)
+			if !ok {
+				return
+			}
+			name := r.P.CalleeName(c)
+			if !isStorageCall(name) {
+				return
+			}
+			sig := c.Common().Signature()
+			hasErr := false
+			for i := 0; i < sig.Results().Len(); i++ {
+				if core.IsErrorType(sig.Results().At(i).Type()) {
+					hasErr = true
+				}
+			}
+			if !hasErr {
+				return
+			}
+			n++
+			used := false
+			if call, ok := c.(*ssa.Call); ok {
+				if ev := core.ErrorResult(call); ev != nil {
+					if refs := ev.Referrers(); refs != nil && len(*refs) > 0 {
+						used = true
+					}
+				}
+			}
+			k := key(fname(r, g), "error of "+name, sprintf("#%d", n))
+			if used {
+				r.Held("R01.7", k, pos(r, in), "error used")
+				return
+			}
+			// accepted idioms
+			_, isDefer := in.(*ssa.Defer)
+			why := ""
+			switch {
+			case strings.HasSuffix(name, ".Close") && isDefer:
+				why = "deferred Close"
+			case strings.HasSuffix(name, ".Close") && g.Parent() != nil:
+				why = "Close inside a deferred cleanup closure"
+			case strings.HasSuffix(name, ".Close") && closeOnErrorPath(r, in):
+				why = "Close on a path that already returns an error"
+			case strings.HasSuffix(name, "Fs.Remove") && isDefer && fname(r, g) == "s3afero.modTimeResolution":
+				why = "deferred removal of the mod-time probe file"
+			}
+			if why != "" {
+				r.Held("R01.7", k, pos(r, in), "accepted idiom: "+why)
+				return
+			}
+			r.Violated("R01.7", k, pos(r, in), "the error returned by "+name+" is discarded: a failed read/write/persist is reported as success")
+		})
+	}
+	r.Floor("R01.7", 60, "storage calls with an error result")
+}
+
+func closeOnErrorPath(r *core.Run, in ssa.Instruction) bool {
+	// every return reachable from here returns a non-nil error
+	fn := in.Parent()
+	any := false
+	for ret, ev := range returnedErrors(fn) {
+		if core.Reaches(in, ret) {
+			any = true
+			if definitelyNil(r, ev) {
+				return false
+			}
+		}
+	}
+	return any
+}
+
+func sortFuncs(r *core.Run, fns []*ssa.Function) {
+	sort.Slice(fns, func(i, j int) bool { return fname(r, fns[i]) < fname(r, fns[j]) })
 }
